@@ -117,8 +117,14 @@ def lean_sources():
 EXTRA_MODULES = {
     "C14": ["CodeLimit.Props.C14b"],
     "C01": ["CodeLimit.Lemmas.GenTie", "CodeLimit.Props.C01disc", "CodeLimit.Props.C01py", "CodeLimit.Props.C01syn",
-            "CodeLimit.Props.C01tree", "CodeLimit.Props.C01pyfull", "CodeLimit.Props.C01text", "CodeLimit.Props.C01full"],
+            "CodeLimit.Props.C01tree", "CodeLimit.Props.C01pyfull", "CodeLimit.Props.C01text", "CodeLimit.Props.C01full",
+            "CodeLimit.Props.C01arrow", "CodeLimit.Props.C01marks", "CodeLimit.Props.C01pytext"],
+    "C03": ["CodeLimit.Lemmas.GenTie"],
+    "C04": ["CodeLimit.Lemmas.GenTie", "CodeLimit.Props.C01marks"],
     "C05": ["CodeLimit.Lemmas.GenTie", "CodeLimit.Props.C05text"],
+    "C11": ["CodeLimit.Props.C11pat", "CodeLimit.Props.C11patRegex"],
+    "C12": ["CodeLimit.Props.C11pat"],
+    "C17": ["CodeLimit.Lemmas.GenTie", "CodeLimit.Props.C01marks"],
 }
 
 
